@@ -217,6 +217,46 @@ def check_library_built(ctx, s, k=0):
                 return
 
 
+def check_document_attrs(ctx, s, k=0):
+    """Attribute arguments of a document reach the <html> element like attributes of any element: plain values escaped for an
+    attribute, HTML() verbatim; a document argument REPLACES what the user's own <html> element has under that name."""
+    from ..ref import charref
+
+    variant = k % 5
+    body = ht.tags.body("b")
+    try:
+        if variant == 0:
+            doc, want = ht.HTMLDocument(ht.div("x"), title=s, lang="en"), [("title", s, False), ("lang", "en", False)]
+        elif variant == 1:
+            doc, want = ht.HTMLDocument(ht.tags.html(body, class_=ht.HTML("a&amp;b")), class_=s), [("class", s, False)]
+        elif variant == 2:
+            doc, want = ht.HTMLDocument(ht.tags.html(body, class_=s, style="k:v;"), style=ht.HTML("x:y;")), [("class", s, False), ("style", "x:y;", True)]
+        elif variant == 3:
+            doc, want = ht.HTMLDocument(ht.tags.html(body, title=ht.HTML("h")), data_v=s, title=s), [("title", s, False), ("data-v", s, False)]
+        else:
+            doc, want = ht.HTMLDocument(body, **{"data-a": s, "data-b": ht.HTML("m&amp;m")}), [("data-a", s, False), ("data-b", "m&amp;m", True)]
+        out = doc.render()["html"]
+    except Exception as e:
+        ctx.violation("attr-supply-raises", "a document with attribute value %r raised %r" % (s[:60], e), {"value": s[:300], "variant": variant})
+        return
+    ctx.count("oracle.document_attributes")
+    wit = {"value": s[:300], "variant": variant, "output": out[:800], "scenario": "document attributes"}
+    try:
+        toks = tokenizer.tokenize(out[len("<!DOCTYPE html>\n"):])
+    except tokenizer.Forged as f:
+        ctx.violation("attr-forges-markup", "document: %s" % f, wit)
+        return
+    t0 = toks[0]
+    if t0[0] != "open" or t0[1] != "html" or [a for a, _ in t0[2]] != [n for n, _, _ in want]:
+        ctx.violation("attr-set-differs", "document: <html> carries %r, expected %r" % ([a for a, _ in t0[2]] if t0[0] == "open" else t0, [n for n, _, _ in want]), wit)
+        return
+    for (a, raw), (_, val, is_html) in zip(t0[2], want):
+        why = (None if raw == val else "HTML() value not written verbatim") if is_html else charref.check_escaped(raw, val, charref.ATTR_SET)
+        if why:
+            ctx.violation("attr-plain-not-inert" if not is_html else "attr-html-not-verbatim", "document: <html %s=\"%s\">: %s" % (a, raw[:80], why), wit)
+            return
+
+
 def _classify(parts):
     kinds = {k for k, _ in parts if k != "sep"}
     if kinds == {"plain", "html"}:
@@ -227,6 +267,10 @@ def _classify(parts):
 
 
 def replay(ctx, w):
+    if "case" not in w:
+        if w.get("scenario") == "document attributes":
+            check_document_attrs(ctx, w["value"], w["variant"])
+        return
     check_case(ctx, w["case"], w.get("shape", "replay"))
 
 
@@ -249,7 +293,10 @@ def rand_value(rng, hostile_p=0.6):
             v_["shared"] = True   # one HTML() constant object used for many elements
         return v_
     if r < hostile_p + 0.2:
-        return N(gen.number_of(rng))
+        n_ = N(gen.number_of(rng))
+        if rng.random() < 0.25:
+            n_["sub"] = True    # an int / float subclass whose repr() is not its str()
+        return n_
     return rng.choice([TRUE, NONE, FALSE, S("")])
 
 
@@ -349,8 +396,17 @@ def _run(ctx):
                     check_library_built(ctx, "".join(tup), k_)
     for _ in range(ctx.budget(400, 200000)):
         k_ += 1
-        check_library_built(ctx, gen.text_of(rng, rng.choice(["word", "meta", "markup", "ws", "nl", "exotic", "mixed", "empty"])), k_)
+        check_library_built(ctx, gen.text_of(rng, rng.choice(["word", "meta", "markup", "ws", "nl", "exotic", "mixed", "empty", "backslash"])), k_)
     ctx.require("oracle.library_built_attributes", 300)
+    for L in range(0, 3):
+        for tup in itertools.product(ALPHABET, repeat=L):
+            for v_ in range(5):
+                k_ += 1
+                if ctx.mine(k_):
+                    check_document_attrs(ctx, "".join(tup), k_)
+    for _ in range(ctx.budget(300, 150000)):
+        k_ += 1
+        check_document_attrs(ctx, gen.text_of(rng, rng.choice(["word", "meta", "markup", "ws", "nl", "exotic", "mixed", "empty", "backslash"])), k_)
 
     # 2c. sizes ordinary elements never reach: hundreds of attributes from several sources (some names colliding), very long values
     if ctx.shard == 0:
@@ -368,7 +424,7 @@ def _run(ctx):
     for _ in range(ctx.budget(4000, 3000000)):
         if rng.random() < 0.5:
             sh = rng.choice(shapes)
-            cls = rng.choice(["word", "meta", "markup", "ws", "nl", "exotic", "mixed", "empty", "long"])
+            cls = rng.choice(["word", "meta", "markup", "ws", "nl", "exotic", "mixed", "empty", "long", "backslash", "backslash"])
             s = gen.text_of(rng, cls)
             c = subst(SHAPES[sh], s)
             check_case(ctx, c, sh)
